@@ -56,6 +56,7 @@ CHECK_DEADLOCK TRUE
 MODES = ("nodb", "db", "tpl")
 WATCHDOG = 30.0             # seconds per parse of a short text (normal: ~1 ms)
 PUMP_WATCHDOG = 300.0       # seconds per pumped parse (normal: < 1 s)
+MAX_HANGS = 2               # per worker job
 MAXNEST = 40
 DEGREE = 3
 MARGIN = 1.5
@@ -118,6 +119,8 @@ def _parse_worker(args):
     structured = []
     nparse = 0
     for cid, atoms in cases:
+        if len(hangs) >= MAX_HANGS:
+            break                      # the violation is established; do not wait 30 s per remaining text
         text = W.concretise(atoms)
         for mode in MODES:
             if mode == "tpl":
@@ -383,9 +386,17 @@ def run(ctx):
     for i, at in malformed.items():
         cid, mode, lang = traces[keys[i]][1]
         ev = json.loads(keys[i])
-        what = "event %d %r is not a step of ParsePipeline.tla (after %r)" % (at, ev[at - 1] if at <= len(ev) else "<end>", ev[max(0, at - 3):at - 1])
-        ctx.violation("pipeline %s" % (ev[at - 1] if at <= len(ev) else "ends without returning an Article",),
-                      what, {"kind": "stage", "atoms": cases[cid][0], "mode": mode, "lang": lang})
+        bad = ev[at - 1] if at <= len(ev) else ["<end of trace>", ""]
+        if bad[0] == "end" and bad[1].startswith("article!"):
+            ctx.violation("parse_string returns %s" % bad[1][len("article!"):],
+                          "parse_string(%r) [%s] returned a %s, not an Article" % (W.concretise(cases[cid][0])[:120], mode, bad[1][8:]),
+                          {"kind": "crash", "atoms": cases[cid][0], "mode": mode, "lang": lang})
+        elif not hangs:
+            # a pass added / removed / reordered is not a violation of totality: the stage list of
+            # ParsePipeline.tla (or the recorder) no longer describes the code
+            ctx.machinery("recorded stage trace is not a behaviour of ParsePipeline.tla at event %d %r (after %r) for %r [%s]: "
+                          "the stage machine or the recorder is out of date"
+                          % (at, bad, ev[max(0, at - 3):at - 1], W.concretise(cases[cid][0])[:80], mode))
     for cid, mode, lang in hangs:
         ctx.violation("parse_string hang %s atoms=%s" % (mode, json.dumps(cases[cid][0])),
                       "no result within %ds (normal: ~1 ms)" % WATCHDOG,
@@ -394,7 +405,9 @@ def run(ctx):
     singles = [(cid, c) for cid, c in enumerate(cases) if c[3] in ("full1",)]
     pairs = [(cid, c) for cid, c in enumerate(cases) if c[3] == "full2"]
     spairs = [(cid, c) for cid, c in pairs if all(x in struct for x in c[0])] if not quick else []
-    sample = rnd.sample(pairs, min(len(pairs), 200 if quick else 1500))
+    pumpcore = set(heads["full"]["pumpcore"])
+    sample = ([(cid, c) for cid, c in pairs if all(x in pumpcore for x in c[0])] if quick
+              else rnd.sample(pairs, min(len(pairs), 1500)))
     longs = [(cid, c) for cid, c in enumerate(cases) if c[3] == "sim"]
     longs = rnd.sample(longs, min(len(longs), 20 if quick else 200))
     chosen = {cid: c for cid, c in singles + spairs + sample + longs}
